@@ -431,94 +431,150 @@ func ruleFuncFold(c *Ctx) []*Obligation {
 		}
 		acc, elem := inv.Call.Args[0], inv.Call.Args[1]
 		accPhi, isPhi := acc.(*ssa.Phi)
+		params := ssa.Value(r.fn.Params[0])
+		bp := &boundsProver{c: c, fn: r.fn, ex: ex}
+		d := bp.newDBM(inv)
+		// element of the argument list as (loop variable, constant): parameters[var + k]
+		elemIndex := func(v ssa.Value) (ssa.Value, int64, bool) {
+			var idx ssa.Value
+			off := int64(0)
+			switch x := v.(type) {
+			case *ssa.Call:
+				cc, ok := c.callTo(x, pkgFunctions, "", "getParameter")
+				if !ok || cc.Args[0] != params {
+					return nil, 0, false
+				}
+				idx = cc.Args[1]
+			case *ssa.UnOp:
+				ia, ok := x.X.(*ssa.IndexAddr)
+				if !ok || x.Op != token.MUL {
+					return nil, 0, false
+				}
+				idx = ia.Index
+				switch b := ia.X.(type) {
+				case *ssa.Parameter:
+					if ssa.Value(b) != params {
+						return nil, 0, false
+					}
+				case *ssa.Slice:
+					if b.X != params || b.High != nil {
+						return nil, 0, false
+					}
+					if b.Low != nil {
+						k, isK := constInt(b.Low)
+						if !isK {
+							return nil, 0, false
+						}
+						off = k
+					}
+				default:
+					return nil, 0, false
+				}
+			default:
+				return nil, 0, false
+			}
+			as, k := d.flatten(idx, 4)
+			switch len(as) {
+			case 0:
+				return nil, k + off, true
+			case 1:
+				if as[0].v != nil {
+					return as[0].v, k + off, true
+				}
+			}
+			return nil, 0, false
+		}
 		if !isPhi {
 			bad = append(bad, "the accumulator is not carried across iterations")
 		} else {
+			okInit := false
 			init := ""
 			for i, e := range accPhi.Edges {
 				if !accPhi.Block().Dominates(accPhi.Block().Preds[i]) {
 					init = ex.str(e)
+					if v, k, ok := elemIndex(e); ok && v == nil && k == 0 {
+						okInit = true
+					}
 				}
 			}
-			if init != "getParameter($1, 0)" {
+			if !okInit {
 				bad = append(bad, "the accumulator does not start with the first argument (starts with "+init+")")
 			}
 		}
-		// element: getParameter($1, i), i = counter from 1, loop while i < len($1)
+		// element: parameters[var + k], var a counter; first visited index 1, step 1, loop runs while the index is < len(parameters)
 		es := ex.str(elem)
-		if ec, ok := elem.(*ssa.Call); ok {
-			if cc, ok := c.callTo(ec, pkgFunctions, "", "getParameter"); ok {
-				idx := cc.Args[1]
-				startsAt1 := false
-				if iphi, ok := idx.(*ssa.Phi); ok {
-					for i, e := range iphi.Edges {
-						if !iphi.Block().Dominates(iphi.Block().Preds[i]) {
-							if k, isK := constInt(e); isK && k == 1 {
-								startsAt1 = true
-							}
-						} else if bo, ok := e.(*ssa.BinOp); !ok || bo.Op != token.ADD || bo.X != ssa.Value(iphi) {
-							bad = append(bad, "the loop index is not incremented by one")
-						} else if k, isK := constInt(bo.Y); !isK || k != 1 {
-							bad = append(bad, "the loop index is not incremented by one")
-						}
-					}
-					// loop bound
-					bounded := false
-					for _, g := range guardsAt(ec.Block()) {
-						cond, truth := g.atom()
-						if bo, ok := cond.(*ssa.BinOp); ok && truth && bo.Op == token.LSS && bo.X == ssa.Value(iphi) && isLenOfParam(bo.Y, r.fn.Params[0]) {
-							bounded = true
-						}
-					}
-					if !bounded {
-						bad = append(bad, "the loop does not run while i < len(parameters)")
-					}
-				}
-				if !startsAt1 {
+		if lv, ke, ok := elemIndex(elem); ok && lv != nil {
+			iphi, isLoopVar := lv.(*ssa.Phi)
+			if !isLoopVar {
+				bad = append(bad, "the folded element "+es+" is not indexed by a loop counter")
+			} else {
+				init, step, okStep := phiStep(iphi)
+				if !okStep || step != 1 {
+					bad = append(bad, "the loop index is not incremented by one")
+				} else if k0, isK := constInt(init); !isK || k0+ke != 1 {
 					bad = append(bad, "the loop over the remaining arguments does not start at index 1")
 				}
-			} else {
-				bad = append(bad, "the folded element is "+es)
+				// loop guard: (var + kx) < (len(parameters) + ky)  with  kx - ky == ke
+				bounded := false
+				for _, g := range guardsAt(inv.Block()) {
+					cond, truth := g.atom()
+					bo, ok := cond.(*ssa.BinOp)
+					if !ok || !truth || bo.Op != token.LSS {
+						continue
+					}
+					xa, kx := d.flatten(bo.X, 4)
+					ya, ky := d.flatten(bo.Y, 4)
+					if len(xa) == 1 && xa[0].v == lv && len(ya) == 1 && ya[0].lenOf == params && kx-ky == ke {
+						bounded = true
+					}
+				}
+				if !bounded {
+					bad = append(bad, "the loop does not run while the argument index is < len(parameters)")
+				}
 			}
 		} else {
 			bad = append(bad, "the folded element is "+es)
 		}
 		// Min/Max: the winner replaces the accumulator only when the comparison is true
 		if spec.op != "Add" && isPhi {
-			backOK := false
-			for i, e := range accPhi.Edges {
-				if accPhi.Block().Dominates(accPhi.Block().Preds[i]) {
-					// e = phi[acc, elem] selected by AsBoolean(cmp)
-					if sel, ok := e.(*ssa.Phi); ok {
-						hasAcc, hasElem := false, false
-						for _, se := range sel.Edges {
-							if se == acc {
-								hasAcc = true
-							}
-							if se == elem {
-								hasElem = true
-							}
-						}
-						if hasAcc && hasElem {
-							// the elem edge must come from the branch where the comparison is true
-							for j, se := range sel.Edges {
-								if se == elem {
-									pb := sel.Block().Preds[j]
-									for _, g := range guardsAt(pb) {
-										cond, truth := g.atom()
-										if call, ok := cond.(*ssa.Call); ok && truth {
-											if _, isB := c.callTo(call, pkgVariants, "Variant", "AsBoolean"); isB {
-												backOK = true
-											}
-										}
-									}
-								}
+			// every value the accumulator takes on a back edge is the accumulator itself (keep) or the
+			// element (replace), and the element arrives only along edges where AsBoolean(comparison) held
+			keep, repl, other, unguarded := 0, 0, 0, 0
+			var visit func(v ssa.Value, gs []guard, depth int)
+			visit = func(v ssa.Value, gs []guard, depth int) {
+				switch {
+				case v == acc:
+					keep++
+				case v == elem:
+					repl++
+					okG := false
+					for _, g := range gs {
+						cond, truth := g.atom()
+						if call, ok := cond.(*ssa.Call); ok && truth {
+							if _, isB := c.callTo(call, pkgVariants, "Variant", "AsBoolean"); isB {
+								okG = true
 							}
 						}
 					}
+					if !okG {
+						unguarded++
+					}
+				default:
+					if sel, ok := v.(*ssa.Phi); ok && depth > 0 && sel != accPhi {
+						for j, se := range sel.Edges {
+							visit(se, guardsOnEdge(sel.Block().Preds[j], sel.Block()), depth-1)
+						}
+						return
+					}
+					other++
 				}
 			}
-			if !backOK {
+			for i, e := range accPhi.Edges {
+				if accPhi.Block().Dominates(accPhi.Block().Preds[i]) {
+					visit(e, guardsOnEdge(accPhi.Block().Preds[i], accPhi.Block()), 3)
+				}
+			}
+			if !(keep > 0 && repl > 0 && other == 0 && unguarded == 0) {
 				bad = append(bad, "the argument does not replace the running result exactly when the comparison holds")
 			}
 		}
@@ -660,21 +716,51 @@ func ruleFuncFold(c *Ctx) []*Obligation {
 		key := "functions#Abs#type-preserving"
 		ex := c.newExpr(r.fn)
 		cells := map[string]string{}
+		// the value whose type is dispatched on, and for every block the types it can still have
+		var tested ssa.Value
 		for _, b := range r.fn.Blocks {
-			ifi, ok := b.Instrs[len(b.Instrs)-1].(*ssa.If)
-			if !ok {
-				continue
+			if ifi, ok := b.Instrs[len(b.Instrs)-1].(*ssa.If); ok {
+				if recv, _, _, ok := c.typeTestConst(ifi.Cond, pkgVariants, "Variant"); ok && tested == nil {
+					tested = recv
+				}
 			}
-			_, k, op, ok := c.typeTestConst(ifi.Cond, pkgVariants, "Variant")
-			if !ok || op != token.EQL {
-				continue
+		}
+		names := c.variantTypeNames()
+		if tested != nil {
+			sets := c.typeSets(r.fn, tested, pkgVariants, "Variant", names)
+			returned := map[ssa.Value]bool{}
+			for _, ret := range returnsOf(r.fn) {
+				for _, l := range phiLeaves(ret.Results[0]) {
+					returned[l] = true
+				}
 			}
-			tn := c.variantTypeNames()[k]
-			for _, d := range dominatedBlocks(b.Succs[0]) {
-				for _, in := range d.Instrs {
-					if call, ok := in.(*ssa.Call); ok {
-						if f := calleeObj(call.Common()); f != nil && strings.HasPrefix(f.Name(), "SetAs") && recvNamed(f) == "Variant" {
-							cells[tn] = f.Name() + "(" + ex.str(callArgs(call.Common())[0]) + ")"
+			for _, b := range r.fn.Blocks {
+				for _, in := range b.Instrs {
+					call, ok := in.(*ssa.Call)
+					if !ok {
+						continue
+					}
+					f := calleeObj(call.Common())
+					if f == nil {
+						continue
+					}
+					cell := ""
+					switch {
+					case strings.HasPrefix(f.Name(), "SetAs") && recvNamed(f) == "Variant":
+						cell = f.Name() + "(" + ex.str(callArgs(call.Common())[0]) + ")"
+					case strings.HasPrefix(f.Name(), "VariantFrom") && c.relPkg(f.Pkg()) == pkgVariants && returned[call] && len(call.Call.Args) == 1:
+						cell = "SetAs" + strings.TrimPrefix(f.Name(), "VariantFrom") + "(" + ex.str(call.Call.Args[0]) + ")"
+					}
+					if cell == "" {
+						continue
+					}
+					set := sets[b] &^ (1 << 63)
+					for k, tn := range names {
+						// the cell of type T is the one that is reached for T (the fallback cell serves every type not singled out before)
+						if set&(1<<uint(k)) != 0 {
+							if _, has := cells[tn]; !has || set == 1<<uint(k) {
+								cells[tn] = cell
+							}
 						}
 					}
 				}
@@ -685,6 +771,10 @@ func ruleFuncFold(c *Ctx) []*Obligation {
 			"Long":    "SetAsLong(conv<int64>(math.Abs(conv<float64>(AsLong(getParameter($1, 0))))))",
 			"Float":   "SetAsFloat(conv<float32>(math.Abs(conv<float64>(AsFloat(getParameter($1, 0))))))",
 			"Double":  "SetAsDouble(math.Abs(AsDouble(getParameter($1, 0))))",
+		}
+		if cells["Double"] == "SetAsDouble(math.Abs(AsDouble(Convert(getParameter($1, 0), Double))))" {
+			// a Double argument may also be served by the convert-to-Double fallback: Convert is the identity for it (CONV.identity)
+			want["Double"] = cells["Double"]
 		}
 		var bad []string
 		for t, w := range want {
